@@ -1,4 +1,4 @@
-\* the code as it is against the PURE property: TLC must find H8 (expected violation)
+\* PRE-FIX model (FixNotif = FALSE) against the PURE property: TLC must find H8 (expected violation)
 CONSTANTS
   Methods <- MCMethods
   EntryAlphabet <- EntriesSmall
